@@ -51,7 +51,7 @@ func genC01(r *Rng, tier string) *Plan {
 	}
 	strTypes := []string{"printable", "utf8", "utf8", "ia5", "teletex"}
 	foreign := func(e *EntitySpec, label string) {
-		fp := ForeignParams{Parts: "cert+key", Str: Pick(r, strTypes), KeyAlg: e.KeyAlg, Pub: r.Bool(),
+		fp := ForeignParams{Parts: "cert+key", Str: Pick(r, strTypes), KeyAlg: e.KeyAlg, Pub: r.Bool(), AltDN: r.Chance(1, 3),
 			P8: Pick(r, []string{"outer", "both"}), Pad: Pick(r, []string{"fixed", "fixed", "stripped", "extra"})}
 		if keyFamily(e.KeyAlg) == "rsa" {
 			fp.P8 = Pick(r, []string{"null", "noparams"})
@@ -75,7 +75,20 @@ func genC01(r *Rng, tier string) *Plan {
 	g.Run(DefaultFlags, "gen")
 	extra := r.Intn(4)
 	for i := 0; i < extra; i++ {
-		switch r.Intn(6) {
+		switch r.Intn(7) {
+		case 6: // the issuer's config subject is edited but its hash-less artifact is (rightly) not refreshed:
+			// a re-issued child must name the stored certificate, not the config
+			if len(inner) > 0 {
+				e := Pick(r, inner)
+				g.P.Add(Op{K: "strip-hash", Ent: e.ID, Label: "issuer-hash-stripped"})
+				ne := editSubject(r, g.ent(e.ID))
+				g.setEnt(ne)
+				g.P.Add(Op{K: "put-ent", Spec: ne, Label: "edit-subject-of-user-supplied-issuer"})
+				c := Pick(r, g.children(g.ent(e.ID)))
+				nc := editSubject(r, c)
+				g.setEnt(nc)
+				g.P.Add(Op{K: "put-ent", Spec: nc, Label: "edit-subject"})
+			}
 		case 5: // an issuer is replaced while one of its children has to be created in the same run
 			if len(inner) > 0 {
 				e := Pick(r, inner)
